@@ -559,6 +559,17 @@ func (fc *funcContext) typeName(ty types.Type) string {
 		panic(fmt.Errorf("unexpected type parameter: %v", t))
 	}
 
+	if mentionsNestedType(ty) {
+		// A type declared inside of a generic function is a different type in
+		// each instance of that function, but go/types describes all of them
+		// with the same object, so an anonymous type built from it can't be a
+		// package-level declaration shared between the instances. Construct it
+		// where it is used instead, with the nesting type arguments of the
+		// current context. The runtime returns the same type for the same
+		// arguments.
+		return fmt.Sprintf("($%sType(%s))", strings.ToLower(typeKind(ty)[5:]), fc.initArgs(ty))
+	}
+
 	// For anonymous composite types, generate a synthetic package-level type
 	// declaration, which will be reused for all instances of this type. This
 	// improves performance, since runtime won't have to synthesize the same type
@@ -575,6 +586,56 @@ func (fc *funcContext) typeName(ty types.Type) string {
 	// don't pass in the function context (nest type parameters) to the DCE.
 	fc.pkgCtx.DeclareDCEDep(anonType, nil, nil)
 	return anonType.Name()
+}
+
+// mentionsNestedType reports whether the type refers to a named type that is
+// declared inside of a generic function or method, i.e. a type that has
+// nesting type arguments.
+func mentionsNestedType(ty types.Type) bool {
+	switch t := ty.(type) {
+	case *types.Named:
+		if fn := typeparams.FindNestingFunc(t.Obj()); fn != nil && fn.Scope().Contains(t.Obj().Pos()) {
+			if typeparams.SignatureTypeParams(fn.Type().(*types.Signature)).Len() > 0 {
+				return true
+			}
+		}
+		for i := 0; i < t.TypeArgs().Len(); i++ {
+			if mentionsNestedType(t.TypeArgs().At(i)) {
+				return true
+			}
+		}
+	case *types.Array:
+		return mentionsNestedType(t.Elem())
+	case *types.Chan:
+		return mentionsNestedType(t.Elem())
+	case *types.Map:
+		return mentionsNestedType(t.Key()) || mentionsNestedType(t.Elem())
+	case *types.Pointer:
+		return mentionsNestedType(t.Elem())
+	case *types.Slice:
+		return mentionsNestedType(t.Elem())
+	case *types.Signature:
+		return mentionsNestedType(t.Params()) || mentionsNestedType(t.Results())
+	case *types.Tuple:
+		for i := 0; i < t.Len(); i++ {
+			if mentionsNestedType(t.At(i).Type()) {
+				return true
+			}
+		}
+	case *types.Struct:
+		for i := 0; i < t.NumFields(); i++ {
+			if mentionsNestedType(t.Field(i).Type()) {
+				return true
+			}
+		}
+	case *types.Interface:
+		for i := 0; i < t.NumMethods(); i++ {
+			if mentionsNestedType(t.Method(i).Type()) {
+				return true
+			}
+		}
+	}
+	return false
 }
 
 // importedPkgVar returns a package-level variable name for accessing an imported
